@@ -392,7 +392,7 @@ def vc_validate(ctx):
     'C07': 'a derived add context must carry the actor\'s next unused dot',
     'C11': 'GCounter::inc derives the next dot from the local total',
     'C12': 'List tags each op with the actor\'s next dot',
-}, floor=1)
+}, floor=2)
 def vc_inc(ctx):
     """VClock::inc(actor) == Dot{actor, counter: self.get(actor) + 1} (through VClock::dot and Dot::inc)."""
     facts = ctx.facts
@@ -403,6 +403,15 @@ def vc_inc(ctx):
     t = normal(facts, it.ret)
     ctx.check(ok, 'inc', body, 'inc(actor) = Dot{actor, get(actor)+1}', 'VClock::inc(actor) is %s, expected Dot{actor, self.get(actor)+1}' % fmt(t),
               details={'summary': fmt(t)})
+    # Dot::apply_inc: the in-place successor
+    b2 = ctx.inherent(DOT, 'apply_inc')
+    it2 = interp(facts, b2)
+    ws = [w for w in it2.all_mutations() if w.loc[0][0] == 'P' and w.loc[0][1] == 1]
+    v = drop_lv(ws[0].val) if len(ws) == 1 else None
+    ok2 = bool(v) and tuple(ws[0].loc[1]) == ('counter',) and v[0] == 'binop' and v[1] == 'Add' and \
+        {versionless(v[2]), versionless(v[3])} == {('field', ('param', 1), 'counter'), ('const', 1, 'u64')}
+    ctx.check(ok2, 'apply_inc', b2, 'counter := counter + 1, actor untouched',
+              'Dot::apply_inc does not set the counter (and only the counter) to counter + 1: %s' % ([(w.loc[1], fmt(drop_lv(w.val), 4)) for w in ws][:3]))
 
 
 @rule('VC-MERGE', {
